@@ -2,7 +2,7 @@
 import re
 
 from hir import (nodes, walk, fn_body, callee, call_args, last, line_of, peel, peel_clone, norm_path, pat_alternatives,
-                 pat_variant, pat_strip, pat_bindings, pat_is_catchall, pp, ppat, children, in_macro)
+                 pat_variant, pat_strip, pat_fields, local_hid, local_name, pat_bindings, pat_is_catchall, pp, ppat, children, in_macro)
 from engines import matches_on, arm_alternatives, ty_is
 from flow import Flow, uncond_nodes
 
@@ -643,3 +643,115 @@ def dropped_results(F, rep, rule, prefixes):
                                "a value of type Result<_, Vec<Error>> is computed and dropped in %s: the error it may carry is never reported" % last(fn["_path"], 2),
                                line_of(e))
     rep.ob(rule, "census", True, "no dropped compile-error Result in %s (%d found)" % ([p.rstrip(":") for p in prefixes], n), sites=1)
+
+
+# --------------------------------------------------------------------------- operand pairing / field-set agreement
+
+PAIRED = {"Add": "Add", "Sub": "Sub", "Mul": "Mul", "Equ": "Equ", "Cmp": "Cmp", "CmpEqu": "CmpEqu",
+          "DivTop": "DivBot", "DivBot": "DivTop"}
+
+
+def operand_pairing(F, rep, rule, fns):
+    """a binary-operator constraint relates two type nodes and is only re-examined when the node *holding* it is
+    refined (check_constraints walks the constraints of one node).  So `Con(b)` on node a must be mirrored by the
+    partner constraint `Con'(a)` on node b in the same block, or refining b later (a parameter unified at a call
+    site) never re-checks the operator."""
+    count = 0
+    for fn in fns:
+        body = fn_body(fn)
+        fname = last(fn["_path"])
+        sites = []
+        for n, parents in walk(body):
+            if n.get("k") != "MethodCall" or callee(n) != TC + "add_constraint":
+                continue
+            cname = constraint_name(n["args"][2])
+            if cname not in PAIRED:
+                continue
+            con = peel(n["args"][2])
+            node = local_hid(n["args"][0])
+            payload = local_hid(con["args"][0]) if con.get("k") == "Call" and con.get("args") else None
+            blk = None
+            for p in reversed(parents):
+                if p.get("k") == "Block":
+                    blk = id(p)
+                    break
+            sites.append(dict(n=n, cname=cname, node=node, payload=payload, blk=blk, ctx=_arm_context(parents),
+                              name=local_name(n["args"][0])))
+        if sites:
+            rep.analysed(fn)
+        seen = {}
+        for s in sites:
+            key = "%s|%s|%s" % (fname, s["ctx"] or "-", s["cname"])
+            seen[key] = seen.get(key, 0) + 1
+            if seen[key] > 1:
+                key += "#%d" % seen[key]
+            if s["node"] is None or s["payload"] is None:
+                rep.ob(rule, key, False, "operator constraint on / about a node that is not a local: cannot pair it", line_of(s["n"]))
+                continue
+            if s["node"] == s["payload"]:
+                # a declared generic constraint (`CmpEqu(var)` on var): one node, nothing to mirror
+                continue
+            count += 1
+            ok = any(t is not s and t["blk"] == s["blk"] and t["node"] == s["payload"] and t["payload"] == s["node"]
+                     and t["cname"] == PAIRED[s["cname"]] for t in sites)
+            rep.ob(rule, key, ok,
+                   ("Constraint::%s on `%s` is mirrored by Constraint::%s on the other operand in the same block" if ok else
+                    "Constraint::%s is recorded on `%s` only: the other operand carries no Constraint::%s back, so when that "
+                    "operand's type becomes known later (a parameter unified at a call) the operator is never re-checked")
+                   % (s["cname"], s["name"], PAIRED[s["cname"]]), line_of(s["n"]))
+    return count
+
+
+def field_set_agreement(F, rep, rule, fn, variant="Blob", field="2"):
+    """in the (X(a..), X(b..)) row of a two-sided match over types, the keyed collections bound on both sides are
+    compared in *both* directions: a loop over one side's keys whose body error-exits when the other side lacks the
+    key.  A membership test of a key against the collection it was just taken from is a tautology."""
+    n_rows = 0
+    for m in nodes(fn_body(fn), "Match"):
+        if m.get("scrut_ty", "").count(TY) != 2:
+            continue
+        for arm in m["arms"]:
+            for alt in pat_alternatives(arm["pat"]):
+                alt = pat_strip(alt)
+                if alt.get("k") != "Tuple" or len(alt["pats"]) != 2:
+                    continue
+                sides = []
+                for p in alt["pats"]:
+                    if last(pat_variant(p) or "") != variant:
+                        break
+                    b = pat_bindings(pat_fields(p).get(field))
+                    if len(b) != 1:
+                        break
+                    sides.append(b[0])
+                if len(sides) != 2:
+                    continue
+                n_rows += 1
+                hids = {sides[0]["hid"]: sides[0]["name"], sides[1]["hid"]: sides[1]["name"]}
+                dirs = set()
+                taut = []
+                for lp in nodes(arm["body"], "ForLoop"):
+                    src = local_hid(_iter_base(lp["iter"]))
+                    if src not in hids:
+                        continue
+                    keys = {b["hid"] for b in pat_bindings(lp["pat"])}
+                    for c in nodes(lp["body"], "MethodCall"):
+                        if c["m"] not in ("contains_key", "get", "contains", "get_mut"):
+                            continue
+                        q = local_hid(c["recv"])
+                        if q not in hids or not any(x.get("hid") in keys for x in nodes(c["args"], "Path")):
+                            continue
+                        if q == src:
+                            taut.append((hids[src], line_of(c)))
+                            continue
+                        # absence must lead to an error exit inside the loop body
+                        if any(is_err_value(x) for x in nodes(lp["body"], "Ret")):
+                            dirs.add((hids[src], hids[q]))
+                a, b = sides[0]["name"], sides[1]["name"]
+                for x, y in ((a, b), (b, a)):
+                    rep.ob(rule, "%s|%s|%s-subset-of-%s" % (last(fn["_path"]), variant, x, y), (x, y) in dirs,
+                           "every key of %s is required to be present in %s (loop over %s with a membership test on %s whose "
+                           "failure is an error exit)" % (x, y, x, y), line_of(arm))
+                rep.ob(rule, "%s|%s|no-tautological-membership" % (last(fn["_path"]), variant), not taut,
+                       "no key is tested for membership in the collection it was taken from%s" % (
+                           "" if not taut else ": " + ", ".join("%s @ %s" % t for t in taut)), line_of(arm))
+    return n_rows
